@@ -1,0 +1,105 @@
+//! Verification hooks, compiled only with the cargo feature `verif`.
+//!
+//! * `point(name, want)` is called at lock acquisitions and at a few filesystem steps; it is a
+//!   no-op unless an external harness installed a hook with `set_hook`.
+//! * `lock_mask` lets a harness observe which of the index locks are currently held.
+//! * thin public wrappers around the crate-private codecs and the segment reader.
+
+use std::collections::BTreeMap;
+use std::num::NonZeroU64;
+use std::path::Path;
+use std::sync::atomic::{AtomicBool, Ordering};
+use std::sync::{Arc, RwLock};
+
+use crate::index::IndexStateItem;
+use crate::types::{KeyBytes, WalOpRaw};
+
+pub const WANT_NONE: u8 = 0;
+pub const WANT_INTENTS: u8 = 1;
+pub const WANT_STATE_R: u8 = 2;
+pub const WANT_STATE_W: u8 = 4;
+pub const WANT_WAL: u8 = 8;
+
+pub const HELD_INTENTS: u8 = 1;
+pub const HELD_STATE_ANY: u8 = 2;
+pub const HELD_STATE_EXCL: u8 = 4;
+pub const HELD_WAL: u8 = 8;
+
+pub type Hook = Arc<dyn Fn(&'static str, u8) + Send + Sync>;
+
+static ENABLED: AtomicBool = AtomicBool::new(false);
+static HOOK: RwLock<Option<Hook>> = RwLock::new(None);
+
+pub fn set_hook(hook: Option<Hook>) {
+    let mut slot = HOOK.write().unwrap_or_else(|e| e.into_inner());
+    ENABLED.store(hook.is_some(), Ordering::SeqCst);
+    *slot = hook;
+}
+
+#[inline]
+pub fn point(name: &'static str, want: u8) {
+    if !ENABLED.load(Ordering::Relaxed) {
+        return;
+    }
+    let hook = HOOK.read().unwrap_or_else(|e| e.into_inner()).clone();
+    if let Some(hook) = hook {
+        hook(name, want);
+    }
+}
+
+/// Which index locks are held right now (by anyone).
+pub fn lock_mask<K>(cas: &crate::CasInner<K>) -> u8 {
+    let mut mask = 0;
+    if cas.index.pending_intents.is_locked() {
+        mask |= HELD_INTENTS;
+    }
+    if cas.index.state.is_locked() {
+        mask |= HELD_STATE_ANY;
+    }
+    if cas.index.state.is_locked_exclusive() {
+        mask |= HELD_STATE_EXCL;
+    }
+    if cas.index.wal.is_locked() {
+        mask |= HELD_WAL;
+    }
+    mask
+}
+
+/// Number of registered in-flight commit intents.
+pub fn pending_intents_len<K>(cas: &crate::CasInner<K>) -> Option<usize> {
+    cas.index.pending_intents.try_lock().map(|g| g.len())
+}
+
+pub fn serialize_wal_op_raw(op: &WalOpRaw) -> Result<Vec<u8>, String> {
+    crate::serialization::serialize_wal_op_raw(op).map_err(|e| e.to_string())
+}
+
+pub fn deserialize_wal_op_raw(bytes: &[u8]) -> Result<WalOpRaw, String> {
+    crate::serialization::deserialize_wal_op_raw(bytes).map_err(|e| e.to_string())
+}
+
+pub fn serialize_index_state<K: KeyBytes>(
+    map: &BTreeMap<K, IndexStateItem>,
+    last_persisted_version: Option<NonZeroU64>,
+) -> Vec<u8> {
+    crate::serialization::serialize_index_state(map, last_persisted_version)
+}
+
+#[allow(clippy::type_complexity)]
+pub fn deserialize_index_state(
+    bytes: &[u8],
+) -> Result<(BTreeMap<Vec<u8>, IndexStateItem>, Option<NonZeroU64>), String> {
+    crate::serialization::deserialize_index_state(bytes).map_err(|e| e.to_string())
+}
+
+/// Decode one segment file with the crate's framed reader: `(version, payload)` per record.
+pub fn read_segment(path: &Path) -> Result<Vec<(u64, Vec<u8>)>, String> {
+    let file = std::fs::File::open(path).map_err(|e| e.to_string())?;
+    let reader = crate::wal::verif_segment_reader(0, path.to_path_buf(), file);
+    let mut out = Vec::new();
+    for entry in reader {
+        let entry = entry.map_err(|e| format!("{e:?}"))?;
+        out.push((entry.version.get(), entry.op_data));
+    }
+    Ok(out)
+}
